@@ -11,6 +11,10 @@ package main
 //   buffered     … with a capacity of at least 1
 //   nonBlocking  every channel send in the answer handler is a case of a select that has a default clause
 //   timeoutMs    the duration of the time.After case of the select, in milliseconds (0: none)
+//   watchdog     the sm.Client the function dials with (`<x>.<Field>.DialNetworkTLS`) is built with
+//                `EnableWatchdog: true` in internal/context (or the field is assigned anywhere else, or its value
+//                is not a literal): go-diameter then starts a watchdog goroutine per connection, which learns of
+//                the connection's end only if a message was read on it after the handshake
 
 import (
 	"fmt"
@@ -26,6 +30,63 @@ import (
 type clientFacts struct {
 	closesConn, ownChan, buffered, nonBlocking bool
 	timeoutMs                                  int
+	clientField                                string
+	watchdog                                   bool
+}
+
+// EnableWatchdog of the sm.Client stored in field `field` of the subscriber context
+func astWatchdog(field string) bool {
+	dir := filepath.Join(repoRoot(), "internal", "context")
+	ents, err := os.ReadDir(dir)
+	if err != nil {
+		return true
+	}
+	found, on := false, false
+	for _, e := range ents {
+		if e.IsDir() || !strings.HasSuffix(e.Name(), ".go") || strings.HasSuffix(e.Name(), "_test.go") {
+			continue
+		}
+		fset := token.NewFileSet()
+		f, err := parser.ParseFile(fset, filepath.Join(dir, e.Name()), nil, 0)
+		if err != nil {
+			return true
+		}
+		ast.Inspect(f, func(n ast.Node) bool {
+			as, ok := n.(*ast.AssignStmt)
+			if !ok || len(as.Lhs) != 1 || len(as.Rhs) != 1 {
+				return true
+			}
+			lhs := exprStr(as.Lhs[0])
+			if strings.HasSuffix(lhs, ".EnableWatchdog") {
+				found, on = true, true // assigned outside the literal: assume the worst
+				return true
+			}
+			if !strings.HasSuffix(lhs, "."+field) {
+				return true
+			}
+			found = true
+			var cl *ast.CompositeLit
+			switch r := as.Rhs[0].(type) {
+			case *ast.UnaryExpr:
+				cl, _ = r.X.(*ast.CompositeLit)
+			case *ast.CompositeLit:
+				cl = r
+			}
+			if cl == nil {
+				on = true
+				return true
+			}
+			for _, el := range cl.Elts {
+				if kv, ok := el.(*ast.KeyValueExpr); ok && exprStr(kv.Key) == "EnableWatchdog" {
+					if exprStr(kv.Value) != "false" {
+						on = true
+					}
+				}
+			}
+			return true
+		})
+	}
+	return on || !found
 }
 
 func exprStr(e ast.Expr) string {
@@ -61,6 +122,9 @@ func astClientFacts(file, sendFn, handlerFn string) (clientFacts, error) {
 						if c, ok := x.Rhs[0].(*ast.CallExpr); ok {
 							if strings.HasSuffix(exprStr(c.Fun), "DialNetworkTLS") && len(x.Lhs) >= 1 {
 								connVar = exprStr(x.Lhs[0])
+								if parts := strings.Split(exprStr(c.Fun), "."); len(parts) >= 2 {
+									cf.clientField = parts[len(parts)-2]
+								}
 							}
 							if id, ok := c.Fun.(*ast.Ident); ok && id.Name == "make" && len(c.Args) >= 1 && x.Tok == token.DEFINE {
 								if _, isChan := c.Args[0].(*ast.ChanType); isChan {
@@ -163,8 +227,9 @@ func init() {
 				fmt.Fprintln(os.Stderr, "ast:", err)
 				os.Exit(1)
 			}
-			fmt.Fprintf(&sb, "/-- %s: %s / %s -/\ndef %s : Cfg := ⟨%v, %v, %v, %v, %d⟩\n\n", c.file, c.send, c.handler, c.name,
-				cf.closesConn, cf.ownChan, cf.buffered, cf.nonBlocking, cf.timeoutMs)
+			cf.watchdog = astWatchdog(cf.clientField)
+			fmt.Fprintf(&sb, "/-- %s: %s / %s; internal/context: the sm.Client in field %q -/\ndef %s : Cfg := ⟨%v, %v, %v, %v, %d, %v⟩\n\n", c.file, c.send, c.handler,
+				cf.clientField, c.name, cf.closesConn, cf.ownChan, cf.buffered, cf.nonBlocking, cf.timeoutMs, cf.watchdog)
 		}
 		sb.WriteString("end Chf.Gen\n")
 		fmt.Print(sb.String())
